@@ -840,7 +840,8 @@ func nmove(wdt float64, subd int, zeit int, g *GlobalVarsMain, l *NitroSharedVar
 			g.C1[z] = 0
 		}
 	}
-	if zeit >= g.SAAT[g.AKF.Index] && zeit <= g.ERNTE2[g.AKF.Index] {
+	if subd == 1 && zeit >= g.SAAT[g.AKF.Index] && zeit <= g.ERNTE2[g.AKF.Index] {
+		// the day's N fixation is credited once per day, like the uptake above (not once per sub-step)
 		g.PESUM = g.PESUM + g.SCHNORR
 	}
 }
